@@ -91,7 +91,7 @@ var TSABehaviours = []string{
 	"leaf-eku-not-critical", "leaf-eku-extra", "leaf-ku-keyencipherment", "leaf-ca-true", "leaf-ku-absent",
 	"ca-ku-absent", "ca-no-certsign", "ca-pathlen-too-small",
 	"token-content-type-data", "signed-attributes-missing", "message-digest-wrong", "signature-broken", "signing-cert-hash-wrong",
-	"tstinfo-version-2", "gentime-not-utc",
+	"tstinfo-version-2", "gentime-not-utc", "tsa-chain-expired", "tsa-chain-not-yet-valid",
 	"garbage", "truncated", "empty-body", "wrong-http-content-type", "http-500", "transport-error", "timeout", "granted-without-token",
 }
 
@@ -156,6 +156,15 @@ func tsaChain(n int, defect string) *pki.Chain {
 		ca.KUAbsent = true
 	case "ca-no-certsign":
 		ca.KU = x509.KeyUsageCRLSign | x509.KeyUsageDigitalSignature
+	case "tsa-chain-expired":
+		// decades expired; the token's genTime lies inside the old validity
+		for _, sp := range specs {
+			sp.NotBefore, sp.NotAfter = time.Date(2005, 1, 1, 0, 0, 0, 0, time.UTC), time.Date(2010, 1, 1, 0, 0, 0, 0, time.UTC)
+		}
+	case "tsa-chain-not-yet-valid":
+		for _, sp := range specs {
+			sp.NotBefore, sp.NotAfter = time.Date(2090, 1, 1, 0, 0, 0, 0, time.UTC), time.Date(2095, 1, 1, 0, 0, 0, 0, time.UTC)
+		}
 	case "ca-pathlen-too-small":
 		if n >= 3 {
 			specs[2].PathLenSet, specs[2].PathLen = true, 0
@@ -174,7 +183,7 @@ func tsaChain(n int, defect string) *pki.Chain {
 func NewTSA(behaviour string, n int) *TSA {
 	t := &TSA{Behaviour: behaviour, Len: n}
 	switch behaviour {
-	case "untrusted-root", "leaf-eku-not-critical", "leaf-eku-extra", "leaf-ku-keyencipherment", "leaf-ca-true", "leaf-ku-absent", "ca-ku-absent", "ca-no-certsign", "ca-pathlen-too-small":
+	case "untrusted-root", "leaf-eku-not-critical", "leaf-eku-extra", "leaf-ku-keyencipherment", "leaf-ca-true", "leaf-ku-absent", "ca-ku-absent", "ca-no-certsign", "ca-pathlen-too-small", "tsa-chain-expired", "tsa-chain-not-yet-valid":
 		t.chain = tsaChain(n, behaviour)
 	default:
 		t.chain = tsaChain(n, "")
@@ -247,8 +256,15 @@ func (t *TSA) token(req *tspclient.Request, serial *big.Int) ([]byte, []byte, as
 			imprint.HashedMessage = h[:]
 		}
 	}
+	gen := time.Date(2021, 6, 1, 12, 0, 1, 0, time.UTC)
+	switch b {
+	case "tsa-chain-expired":
+		gen = time.Date(2009, 6, 1, 12, 0, 1, 0, time.UTC)
+	case "tsa-chain-not-yet-valid":
+		gen = time.Date(2091, 6, 1, 12, 0, 1, 0, time.UTC)
+	}
 	info := tspclient.TSTInfo{Version: 1, Policy: oidTSAPolicy, MessageImprint: imprint, SerialNumber: serial,
-		GenTime: time.Date(2021, 6, 1, 12, 0, 1, 0, time.UTC), Accuracy: tspclient.Accuracy{Seconds: 1}, Nonce: req.Nonce}
+		GenTime: gen, Accuracy: tspclient.Accuracy{Seconds: 1}, Nonce: req.Nonce}
 	switch b {
 	case "wrong-nonce":
 		info.Nonce = new(big.Int).Add(req.Nonce, big.NewInt(1))
@@ -287,7 +303,7 @@ func (t *TSA) token(req *tspclient.Request, serial *big.Int) ([]byte, []byte, as
 	attrs := []cmsAttribute{
 		{Type: oidAttrCT, Values: rawSet(ct)},
 		{Type: oidAttrMD, Values: rawSet(mdBytes)},
-		{Type: oidAttrST, Values: rawSet(time.Date(2021, 6, 1, 12, 0, 1, 0, time.UTC))},
+		{Type: oidAttrST, Values: rawSet(gen)},
 		{Type: oidAttrSCV2, Values: rawSet(signingCertV2{Certificates: []essCertIDv2{{CertHash: ch}}})},
 	}
 	si := cmsSignerInfo{Version: 1, SignerIdentifier: cmsIssuerSerial{Issuer: issuer, SerialNumber: leaf.SerialNumber},
